@@ -50,6 +50,20 @@ impl RecordBuf {
 
         let samples = record.samples()?;
 
+        // The samples are collected below. Their number is read from the record, e.g., a BCF
+        // record has a 24-bit sample count that is not backed by any data when it has no series.
+        let sample_name_count = header.sample_names().len();
+
+        if samples.len() > sample_name_count {
+            return Err(io::Error::new(
+                io::ErrorKind::InvalidData,
+                format!(
+                    "invalid sample count: expected <= {sample_name_count}, got {}",
+                    samples.len()
+                ),
+            ));
+        }
+
         let keys = samples
             .column_names(header)
             .map(|result| result.map(String::from))
@@ -70,5 +84,32 @@ impl RecordBuf {
         *record_buf.samples_mut() = Samples::new(keys, values);
 
         Ok(record_buf)
+    }
+}
+
+#[cfg(test)]
+mod tests {
+    use super::*;
+
+    #[test]
+    fn test_try_from_variant_record_with_more_samples_than_sample_names() -> io::Result<()> {
+        let record = crate::Record::try_from(&b"sq0\t1\t.\tA\t.\t.\t.\t.\tGT\t0|0\t0/1"[..])?;
+
+        let header = Header::builder()
+            .add_sample_name("sample0")
+            .add_sample_name("sample1")
+            .build();
+
+        let record_buf = RecordBuf::try_from_variant_record(&header, &record)?;
+        assert_eq!(record_buf.samples().values().count(), 2);
+
+        let header = Header::builder().add_sample_name("sample0").build();
+
+        assert!(matches!(
+            RecordBuf::try_from_variant_record(&header, &record),
+            Err(e) if e.kind() == io::ErrorKind::InvalidData
+        ));
+
+        Ok(())
     }
 }
